@@ -69,7 +69,7 @@ class GoodComb(py4hw.Logic):
 
 class AttrMismatch(py4hw.Logic):
     """attribute name differs from port name (the shape of SelectType in test/unit/Test_RtlGeneration.py)"""
-    expect = 'undeclared'
+    expect = 'ok'   # 'undeclared' before /repo 53243dd
 
     def __init__(self, parent, name, a, r):
         super().__init__(parent, name)
